@@ -130,9 +130,12 @@ def shape(model):
     return 'one-rule' if len(model.rules) == 1 else 'many-rules'
 
 
-def shard_features(m, items):
+def shard_features(m, items, tier='quick'):
     for name, text in items:
-        check_text(m, text, text, c02.feature_inputs(name, 'thorough')[:400])
+        model = impl.compile_text(text)
+        inputs = c02.feature_inputs_capped(name, tier, 1200 if tier == 'quick' else 8000, model)
+        impl.rule_reach(m, 'feature-grammar-rules', name, model, inputs, **impl.with_start(model, {}))
+        check_text(m, text, text, inputs)
         m.sample({'grammar': text})
 
 
@@ -303,7 +306,7 @@ def check_graphs(rc):
 def run(rc):
     quick = rc.tier == 'quick'
     check_graphs(rc)
-    rc.pmap(shard_features, list(c13.FEATURES.items()), chunk=1)
+    rc.pmap(shard_features, list(c13.FEATURES.items()), chunk=1, tier=rc.tier)
     exps = c01.expressions(2 if quick else 3)
     rc.pmap(shard_exprs, exps, inputs=list(gs.inputs(['a', 'b', ' '], 2)))
     stress = list(STRESS)
